@@ -1,6 +1,6 @@
 (* C14: what the content builders hand to PrettyTable, metric accumulation over any call
    sequence, placement and titles, alt-text default, one call with several items = one call per item. *)
-From Skv Require Import PyStr PyStrFacts CardStr Path PathFacts Json Tree TreeFacts Ops Render Spec OpsFacts.
+From Skv Require Import PyStr PyStrFacts CardStr Path PathFacts Json Tree TreeFacts Ops Render Spec OpsFacts RenderFacts.
 From Coq Require Import Lia.
 Open Scope N_scope.
 
@@ -141,7 +141,7 @@ Proof.
     destruct (run (ops1 ++ ops2) c1) as [c2 rs]. destruct (run ops1 c1) as [c3 rs3]. cbn [fst] in *. exact IH. }
   rewrite Hrun. set (c0 := fst (run ops empty_card)). cbn [run run_op fst data metrics].
   unfold add_single. rewrite lookup_add_same by apply split_names_nonnil.
-  eexists. split; [reflexivity|]. rewrite subs_set_subs. split; destruct (lookup _ _); reflexivity.
+  eexists. split; [reflexivity|]. split; destruct (lookup _ _); reflexivity.
 Qed.
 
 (* ------------------------------------------------------------------ C14_placement / C14_alt_default *)
@@ -391,13 +391,14 @@ Lemma add_path_twice p n1 n2 d :
 Proof.
   intros Hs. revert d; induction p as [|k p IH]; intros d; [reflexivity|].
   rewrite !add_path_cons. destruct p as [|k2 p].
-  - rewrite dget_dset_same, subs_set_subs, dset_dset. destruct (dget k d); [reflexivity|]. rewrite Hs. reflexivity.
-  - destruct (dget k d) as [x|] eqn:E; rewrite dget_dset_same, subs_set_subs, dset_dset.
-    + rewrite IH. destruct x; reflexivity.
-    + unfold fresh at 2. cbn [subs]. rewrite IH. reflexivity.
+  - rewrite dget_dset_same. cbv beta iota. rewrite subs_set_subs, dset_dset.
+    destruct (dget k d); [reflexivity|]. rewrite Hs. reflexivity.
+  - destruct (dget k d) as [x|] eqn:E; rewrite dget_dset_same; cbv beta iota.
+    + rewrite subs_set_subs, dset_dset. rewrite IH. destruct x; reflexivity.
+    + rewrite dset_dset. unfold fresh. cbn [subs set_subs]. rewrite IH. reflexivity.
 Qed.
 
-(* add_metrics(a, **m1, **m2) = add_metrics(**m1) ; add_metrics(**m2)   (same section and description) *)
+(* add_metrics with the items m1 ++ m2 = add_metrics with m1, then add_metrics with m2 (same section and description) *)
 Theorem batch_metrics sect desc a b c :
   fst (run_op (OAddMetrics sect desc (a ++ b)) c) =
   fst (run_op (OAddMetrics sect desc b) (fst (run_op (OAddMetrics sect desc a) c))).
@@ -407,6 +408,24 @@ Proof.
 Qed.
 
 (* C14_dict_df_same: the formatted text depends only on (column names, cell texts, description, folded) *)
-Theorem format_depends_on_columns pretty t1 c1 v1 s1 t2 c2 v2 s2 desc fold cols :
+Theorem format_depends_on_columns pretty t1 v1 s1 t2 v2 s2 desc fold cols :
   format pretty (Sec t1 desc v1 fold (KTable cols) s1) = format pretty (Sec t2 desc v2 fold (KTable cols) s2).
 Proof. reflexivity. Qed.
+
+(* the old defects D16 / D17 on their witnesses *)
+Lemma nested_table_and_plots_example :
+  let c := run_card [ OAddTable None false [(of_ascii "X/Y", [(of_ascii "a", [of_ascii "1"])])];
+                      OAddPlot None None false [(of_ascii "P1", of_ascii "p1.png"); (of_ascii "Q/P2", of_ascii "p2.png")] ]
+                    empty_card in
+  option_map title (lookup [of_ascii "X"; of_ascii "Y"] (data c)) = Some (of_ascii "Y")
+  /\ option_map skind (lookup [of_ascii "P1"] (data c)) = Some (KPlot (of_ascii "p1.png") (of_ascii "P1"))
+  /\ option_map skind (lookup [of_ascii "Q"; of_ascii "P2"] (data c)) = Some (KPlot (of_ascii "p2.png") (of_ascii "P2")).
+Proof. repeat split; vm_compute; reflexivity. Qed.
+
+Lemma metrics_example :
+  let c := run_card [ OAddMetrics (of_ascii "M") None [(of_ascii "acc", of_ascii "0.5"); (of_ascii "f1", of_ascii "x")];
+                      OAdd false [(of_ascii "Z", [])];
+                      OAddMetrics (of_ascii "M") None [(of_ascii "auc", of_ascii "1"); (of_ascii "acc", of_ascii "0.75")] ]
+                    empty_card in
+  metrics c = [(of_ascii "acc", of_ascii "0.75"); (of_ascii "f1", of_ascii "x"); (of_ascii "auc", of_ascii "1")].
+Proof. vm_compute. reflexivity. Qed.
